@@ -343,7 +343,8 @@ def check_cleanup(repo: Repo, rep: Report):
                 if s0 in (g.exit, g.raise_exit):
                     bad_path = [an.id, s0]
                     break
-                p = g.paths_avoiding(s0, lambda x: x.id in (g.exit, g.raise_exit), lambda x: x.id in rel_ids)
+                # exceptions raised by the clean-up code itself (statements inside a finally body) are not pursued
+                p = g.paths_avoiding(s0, lambda x: x.id in (g.exit, g.raise_exit), lambda x: x.id in rel_ids, skip_edge=lambda a, b, lab: lab == "exc" and bool(a.copy))
                 if p is not None:
                     bad_path = [an.id] + p
                     break
